@@ -46,6 +46,15 @@ cocls::async<void> consumer(cocls::future<T> &f, Rec<T> &r) {
     r.done = true;
 }
 
+// an item type whose constructor can throw: a failing push must change nothing (in particular it must not lose a
+// waiting pop)
+struct ItemThrow {};
+struct Item {
+    int v;
+    Item(int x) : v(x) { if (x < 0) throw ItemThrow(); }
+    operator int() const { return v; }
+};
+
 template <typename T>
 struct World {
     std::unique_ptr<Probe<T>> q{new Probe<T>()};
@@ -64,7 +73,7 @@ struct World {
         if (f.ready()) {
             try {
                 if constexpr (std::is_void_v<T>) { f.value(); v = 0; }
-                else v = f.value();
+                else v = (int) f.value();
                 st = "val";
             } catch (const cocls::await_canceled_exception &) { st = "canceled"; }
             catch (const TestExc &) { st = "exc"; }
@@ -95,7 +104,7 @@ struct World {
                 for (std::size_t i = 0; i < q->_queue.size(); i++) items.push(0);
             } else {
                 auto copy = q->_queue;   // std::queue<int> copy
-                while (!copy.empty()) { items.push(copy.front()); copy.pop(); }
+                while (!copy.empty()) { items.push((int) copy.front()); copy.pop(); }
             }
             // the parked promises: identify each by the future it points to
             std::size_t n = q->_awaiters.size();
@@ -129,6 +138,10 @@ struct World {
                 if constexpr (std::is_void_v<T>) r = q->push();
                 else r = q->push(npush);
                 ret = r ? "true" : "false";
+            } else if (st.name == "PushThrow") {
+                if constexpr (std::is_same_v<T, Item>) {
+                    try { (void) q->push(-1); ret = "nothrow"; } catch (const ItemThrow &) { ret = "threw"; }
+                } else { rep.error(k, "PushThrow needs the throwing item type"); break; }
             } else if (st.name == "PopCS") {
                 npop++;
                 futs.emplace_back(new cocls::future<T>(q->pop()));
@@ -158,6 +171,7 @@ struct World {
 int main() {
     return replay_main(std::cin, [](const Scenario &sc, Reporter &rep) {
         if (sc.hdr.at("void").as_bool()) { World<void> w; w.run(sc, rep); }
+        else if (sc.hdr.at("item").as_bool(false)) { World<Item> w; w.run(sc, rep); }
         else { World<int> w; w.run(sc, rep); }
     });
 }
